@@ -154,7 +154,11 @@ func (p *memoryState[T]) SMembers(key string) ([]string, error) {
 		return []string{}, err
 	}
 
-	return set.([]string), nil
+	// Return a copy: SRem and AtomicSAddWithMaxValuesAllowed modify the stored
+	// slice in place, so a caller iterating over the stored slice itself (the
+	// concurrent quota's expiry GC) would skip members while removing others.
+	members := set.([]string)
+	return append(make([]string, 0, len(members)), members...), nil
 }
 
 func (p *memoryState[T]) SRem(key string, value string) error {
